@@ -128,6 +128,7 @@ impl RegexMatcher {
         // Report errors against the pattern as given.
         Regex::with_options(pattern, options, &syntax)?;
         check_intervals(pattern, regex_type)?;
+        check_back_references(pattern, regex_type)?;
         // The engine stops at the first alternative that matches, so anchor the
         // end to make it try the others until the whole path is consumed ('$'
         // would also accept the position before a final newline).
@@ -139,6 +140,55 @@ impl RegexMatcher {
         let regex = Regex::with_options(&anchored, options, &syntax)?;
         Ok(Self { regex })
     }
+}
+
+/// A back-reference to a group that is not complete where it stands - one that
+/// opens later, or the one it stands in - is an invalid regular expression (the
+/// engine only holds the number against the total count of groups).
+fn check_back_references(pattern: &str, regex_type: RegexType) -> Result<(), Box<dyn Error>> {
+    let extended = matches!(regex_type, RegexType::PosixExtended);
+    let mut opened = 0u32;
+    let mut open: Vec<u32> = Vec::new();
+    let mut rest = pattern;
+    while let Some(ch) = rest.chars().next() {
+        rest = &rest[ch.len_utf8()..];
+        match ch {
+            '\\' => {
+                let Some(quoted) = rest.chars().next() else {
+                    break;
+                };
+                rest = &rest[quoted.len_utf8()..];
+                match quoted {
+                    '(' if !extended => {
+                        opened += 1;
+                        open.push(opened);
+                    }
+                    ')' if !extended => {
+                        open.pop();
+                    }
+                    '1'..='9' => {
+                        let group = quoted as u32 - '0' as u32;
+                        if group > opened || open.contains(&group) {
+                            return Err(From::from(format!(
+                                "Invalid back reference \\{quoted} in regular expression {pattern:?}"
+                            )));
+                        }
+                    }
+                    _ => {}
+                }
+            }
+            '(' if extended => {
+                opened += 1;
+                open.push(opened);
+            }
+            ')' if extended => {
+                open.pop();
+            }
+            '[' => rest = after_bracket(rest),
+            _ => {}
+        }
+    }
+    Ok(())
 }
 
 /// An interval whose lower bound exceeds its upper bound, or a bound above
